@@ -79,6 +79,19 @@ def structural(res, what, sig, fit, rfi, one, check_model=True):
             res.violation(sig + ':model-history', '%s: beads_model(x) gives %s before and %s after the standard curve has been evaluated' % (what, bm_first.tolist()[:3], bm_again.tolist()[:3]), one)
             return False
     params = p_ret
+    # single numbers (Python and NumPy scalars), negative ones included, give what the array call gives
+    for v in (-0.01, -7.5, 3.25, -123.4):
+        arr_v = float(np.asarray(std_crv(np.array([v])), dtype=float)[0])
+        for conv in (float, np.float64, np.float32):
+            try:
+                sv = float(std_crv(conv(v)))
+            except Exception as e:
+                res.violation(sig + ':scalar-raises', '%s: std_crv(%r) raised %s: %s' % (what, conv(v), type(e).__name__, e), one)
+                return False
+            ref_v = float(np.asarray(std_crv(np.array([conv(v)], dtype=float)), dtype=float)[0])
+            if not (sv == ref_v or abs(sv - ref_v) <= 1e-12 * abs(ref_v)):
+                res.violation(sig + ':scalar', '%s: std_crv(%s(%r)) = %r, the same value in an array gives %r' % (what, conv.__name__, v, sv, ref_v), one)
+                return False
     # the curve evaluated on whole-number fluorescence values held in integer types (raw channel numbers) equals the curve on the same values as floats
     xi = [1, 2, 7, 123, 10000, 60000]
     want_i = np.asarray(std_crv(np.array(xi, dtype=float)), dtype=float)
@@ -143,10 +156,14 @@ def run_case(c):
                     form = ('float', 'int-array', 'int-list')[(AUTOS.index(auto) + len(lname)) % 3]
                     mef_arg = mefs if form == 'float' else (np.array(mef, dtype=np.int64) if form == 'int-array' else [int(v) for v in mef])
                     what += ' [MEF values as %s]' % form
+                    rfi_before, mef_before = rfi.tobytes(), repr(mef_arg)
                     try:
                         fit = fitf(rfi, mef_arg)
                     except Exception as e:
                         res.violation('lattice:raises:%s' % type(e).__name__, '%s raised %s: %s' % (what, type(e).__name__, e), one)
+                        continue
+                    if rfi.tobytes() != rfi_before or repr(mef_arg) != mef_before:
+                        res.violation('lattice:inputs-changed', '%s changed the arrays it was given (fluorescence values now %s...)' % (what, rfi.tolist()[:3]), one)
                         continue
                     if not structural(res, what, 'lattice', fit, rfi, one):
                         continue
